@@ -72,6 +72,7 @@ const OP_NAMES: &[&str] = &[
 	"waiting_at_barrier",
 	"setup",
 	"main_waiting_for_threads",
+	"txhashset_read",
 ];
 const OP_IDLE: u64 = 0;
 const OP_BLOCK: u64 = 1;
@@ -96,6 +97,7 @@ const OP_VALIDATE_INPUTS: u64 = 19;
 const OP_BARRIER: u64 = 20;
 const OP_SETUP: u64 = 21;
 const OP_JOINING: u64 = 22;
+const OP_ARCHIVE: u64 = 23;
 
 fn tick(slot: usize, op: u64) {
 	CUR_OP[slot].store(op, Ordering::SeqCst);
@@ -626,6 +628,9 @@ enum Role {
 	Mixed,
 	Compactor,
 	Segments,
+	/// serves the state archive (`txhashset_read`) of the current head / its parent; two of these
+	/// threads run in every run so that requests for the same block overlap
+	Archive,
 }
 
 type Stats = BTreeMap<String, u64>;
@@ -651,6 +656,11 @@ struct Ctx<'a> {
 	barrier: Barrier,
 	/// effective compactions (tail moved)
 	compactions: AtomicU64,
+	/// chain directory of this run
+	dir: String,
+	/// block -> (length, digest) of the bytes every successful `txhashset_read` caller could read from
+	/// the file it was handed, at the moment the call returned
+	archives: Mutex<HashMap<Hash, Vec<(u64, u64)>>>,
 }
 
 impl<'a> Ctx<'a> {
@@ -1231,6 +1241,123 @@ fn op_segmenter(ctx: &Ctx, rs: &mut RState, p: &mut Prng, slot: usize) {
 	}
 }
 
+fn fnv(bytes: &[u8]) -> u64 {
+	let mut h = 0xcbf29ce484222325u64;
+	for b in bytes {
+		h ^= *b as u64;
+		h = h.wrapping_mul(0x100000001b3);
+	}
+	h
+}
+
+/// Serve the state archive of the head (or its parent) as a peer's fast-sync request would. What the
+/// caller is handed must be the finished archive: its bytes are recorded and compared after the
+/// concurrent phase with the archive file then on disk, which must unpack to the full file set.
+fn op_archive(ctx: &Ctx, rs: &mut RState, p: &mut Prng) {
+	use std::io::Read;
+	inc(&mut rs.st, "op.archive");
+	let head = match catch(|| ctx.chain.head()) {
+		Err(pn) => return ctx.panic("head", &pn),
+		Ok(Err(e)) => return ctx.viol("head_unreadable", format!("head(): {:?}", e)),
+		Ok(Ok(t)) => t,
+	};
+	let h = if p.chance(1, 4) && head.height > 1 { head.prev_block_h } else { head.last_block_h };
+	let exp = match ctx.w.expect.get(&h) {
+		Some(e) => e,
+		None => return,
+	};
+	match catch(|| ctx.chain.txhashset_read(h)) {
+		Err(pn) => ctx.panic("txhashset_read", &pn),
+		Ok(Err(e)) => {
+			inc(&mut rs.st, &format!("archive.err:{}", short_err(&e)));
+			// the head (or its parent) of a moment ago is a stored block inside the horizon: serving it cannot fail
+			ctx.viol(
+				&format!("archive_read_failed;{}", short_err(&e)),
+				format!("txhashset_read({}) (height {}) failed: {:?}", h, exp.height, e),
+			);
+		}
+		Ok(Ok((o, k, mut f))) => {
+			inc(&mut rs.st, "archive.ok");
+			if o != exp.roots.output_mmr_size || k != exp.roots.kernel_mmr_size {
+				ctx.viol(
+					"archive_sizes_not_those_of_the_block",
+					format!("txhashset_read({}) returned sizes ({}, {}), the block's header has ({}, {})", h, o, k, exp.roots.output_mmr_size, exp.roots.kernel_mmr_size),
+				);
+			}
+			let mut bytes = vec![];
+			if f.read_to_end(&mut bytes).is_ok() {
+				ctx.archives.lock().unwrap().entry(h).or_default().push((bytes.len() as u64, fnv(&bytes)));
+			}
+		}
+	}
+}
+
+/// After the concurrent phase: every archive that was handed out must have been the finished one.
+fn check_archives(ctx: &Ctx, st: &mut Stats) {
+	let served = std::mem::take(&mut *ctx.archives.lock().unwrap());
+	for (h, seen) in served {
+		let name = format!("{}/txhashset_snapshot_{}.zip", ctx.dir, h);
+		let fin = match std::fs::read(&name) {
+			Ok(b) => b,
+			Err(e) => {
+				ctx.viol("archive_file_gone", format!("{} callers were handed the archive of {} but {} cannot be read afterwards: {}", seen.len(), h, name, e));
+				continue;
+			}
+		};
+		let want = (fin.len() as u64, fnv(&fin));
+		inc(st, "archive.blocks_served");
+		*st.entry("archive.handouts_compared".into()).or_insert(0) += seen.len() as u64;
+		if seen.len() > 1 {
+			inc(st, "archive.blocks_served_more_than_once");
+		}
+		if let Some(bad) = seen.iter().find(|x| **x != want) {
+			ctx.viol(
+				"archive_handed_out_unfinished",
+				format!(
+					"a caller of txhashset_read({}) could read {} bytes (digest {:x}) from the file it was handed; the finished archive has {} bytes (digest {:x})",
+					h, bad.0, bad.1, want.0, want.1
+				),
+			);
+			continue;
+		}
+		// the finished archive unpacks to the full file set
+		let ex = format!("{}/unzip_{}", ctx.dir, h);
+		let _ = std::fs::remove_dir_all(&ex);
+		let _ = std::fs::create_dir_all(&ex);
+		let must: Vec<String> = vec![
+			"kernel/pmmr_data.bin".into(),
+			"kernel/pmmr_hash.bin".into(),
+			"output/pmmr_data.bin".into(),
+			"output/pmmr_hash.bin".into(),
+			"rangeproof/pmmr_data.bin".into(),
+			"rangeproof/pmmr_hash.bin".into(),
+			format!("output/pmmr_leaf.bin.{}", h),
+			format!("rangeproof/pmmr_leaf.bin.{}", h),
+		];
+		let mut list: Vec<std::path::PathBuf> = must.iter().map(std::path::PathBuf::from).collect();
+		list.push("output/pmmr_prun.bin".into());
+		list.push("rangeproof/pmmr_prun.bin".into());
+		let r = std::fs::File::open(&name).map_err(|e| e.to_string()).and_then(|f| grin_util::zip::extract_files(f, std::path::Path::new(&ex), list).map_err(|e| e.to_string()));
+		if let Err(e) = r {
+			ctx.viol("archive_not_a_readable_zip", format!("the archive of {} cannot be unpacked: {}", h, e));
+		} else {
+			for m in &must {
+				let fp = format!("{}/{}", ex, m);
+				let ok = std::fs::metadata(&fp).map(|x| x.len() > 0).unwrap_or(false);
+				if !ok {
+					ctx.viol(
+						&format!("archive_lacks_file;{}", m.split('.').next().unwrap_or(m)),
+						format!("the archive of {} served to {} caller(s) has no (or an empty) {}", h, seen.len(), m),
+					);
+					break;
+				}
+			}
+			inc(st, "archive.unpacked_and_complete");
+		}
+		let _ = std::fs::remove_dir_all(&ex);
+	}
+}
+
 const MIN_READER_ITERS: u64 = 40;
 const MAX_READER_ITERS: u64 = 30_000;
 
@@ -1368,11 +1495,16 @@ fn reader(ctx: &Ctx, slot: usize, role: Role, seed: u64) {
 					op_get_unspent(ctx, &mut rs, &mut p, slot);
 				}
 			}
+			Role::Archive => {
+				tick(slot, OP_ARCHIVE);
+				op_archive(ctx, &mut rs, &mut p);
+			}
 		}
 		iters += 1;
 		tick(slot, OP_IDLE);
 		let pause = match role {
 			Role::Template | Role::Segments => 500 + p.below(3000),
+			Role::Archive => 2000 + p.below(6000),
 			_ => 100 + p.below(1500),
 		};
 		std::thread::sleep(Duration::from_micros(pause));
@@ -1441,6 +1573,8 @@ fn execute_run(run: &Run, w: &WorldData, rc: &RunCfg, sc: &Scratch, san: bool) -
 		roles.push(Role::Compactor);
 		roles.push(Role::Segments);
 	}
+	roles.push(Role::Archive);
+	roles.push(Role::Archive);
 	let n_sub = plans.plans.len();
 	let n_threads = n_sub + roles.len();
 	assert!(n_threads + 1 < MAX_SLOTS);
@@ -1470,6 +1604,8 @@ fn execute_run(run: &Run, w: &WorldData, rc: &RunCfg, sc: &Scratch, san: bool) -
 		panics: AtomicU64::new(0),
 		barrier: Barrier::new(n_threads),
 		compactions: AtomicU64::new(0),
+		dir: dir.clone(),
+		archives: Mutex::new(HashMap::new()),
 	};
 	ctx.register(0);
 	verif_hooks::events_enable(true);
@@ -1494,6 +1630,7 @@ fn execute_run(run: &Run, w: &WorldData, rc: &RunCfg, sc: &Scratch, san: bool) -
 	let sched_after = verif_hooks::sched_stats();
 	tick(0, OP_FINAL_REDELIVERY);
 	let mut st = std::mem::take(&mut *ctx.stats.lock().unwrap());
+	check_archives(&ctx, &mut st);
 	let hit_deadline = Instant::now() > ctx.deadline;
 	if hit_deadline {
 		run.inconclusive(&format!("run {}/{} ({}): concurrent phase exceeded its {} s budget", rc.k, rc.rep, w.kind.name(), budget_s));
